@@ -921,14 +921,18 @@ func (u *Uint128) Scan(state fmt.ScanState, verb rune) error {
 // one of the verbs b, o, O, d, x or X is read back in the base it was printed in.
 func scanText(text string, verb rune) string {
 	var prefix string
+	letters := "bBoOxX" // The letters that mark a base prefix after a leading zero
 	switch verb {
 	case 'b':
 		prefix = "0b"
+		letters = "bB"
 	case 'o', 'O':
 		prefix = "0o"
+		letters = "oO"
 	case 'd':
 	case 'x', 'X':
 		prefix = "0x"
+		letters = "xX" // b and B are hexadecimal digits here
 	default:
 		return text
 	}
@@ -937,7 +941,7 @@ func scanText(text string, verb rune) string {
 		sign = text[:1]
 		text = text[1:]
 	}
-	if len(text) > 1 && text[0] == '0' && strings.ContainsRune("bBoOxX", rune(text[1])) {
+	if len(text) > 1 && text[0] == '0' && strings.ContainsRune(letters, rune(text[1])) {
 		return sign + text // Already carries its base
 	}
 	if verb == 'd' {
